@@ -54,6 +54,10 @@ def plan_for(tier: str, seed: int, i: int) -> dict:
         op = {"op": k, "root": base + (1, 1)}
     elif k == "multiwalk":
         op = {"op": k, "roots": [base + (1, 1), base + (1, 2)][:rng.randrange(1, 3)]}
+    mrng = rng_for(seed, ID, tier + ":mode", i)
+    if k in ("walk", "multiwalk") and mrng.random() < 0.5:
+        # lenient walks tolerate a FAULTY agent (non-increasing OIDs); a response to another request is not that
+        op["errors"] = mrng.choice(["warn", "strict"])
     elif k == "bulkwalk":
         op = {"op": k, "roots": [base + (1, 1), base + (1, 2)][:rng.randrange(1, 3)], "bulk": rng.choice([1, 2, 5])}
     elif k == "table":
